@@ -15,6 +15,11 @@ def run(tier):
         f2 = halfcommon.sweep(chk, "cxx14-f16c-upward")
         res2, nrec2 = halfcommon.validate(chk, "cxx14-f16c-upward", f2)
         nrec += nrec2
+    # ... and for the software path built with the documented IMATH_HALF_ENABLE_FP_EXCEPTIONS macro (extra statements in the
+    # overflow / underflow branches must not disturb the conversion)
+    f3 = halfcommon.sweep(chk, "cxx14-fpexc")
+    res3, nrec3 = halfcommon.validate(chk, "cxx14-fpexc", f3)
+    nrec += nrec3
     chk.sample_lines(files[3], idx=(1, 2, 3, 200))
     chk.sample_lines(files[0], idx=(2, 65540))
     chk.assumptions += [
